@@ -170,11 +170,16 @@ def r4(ctx):
     rows = []
     import itertools
     for e_, x_, p_, l_ in itertools.product((True, False), repeat=4):
-        rs = explore(f.body, mk_atoms({E: e_, X: x_, P: p_, lz: l_}))
+        rs = explore(f.body, mk_atoms({E: e_, X: x_, P: p_, lz: l_}), names=None, nonnull=(ast.Tuple, ast.List, ast.Dict, ast.Set, ast.JoinedStr, ast.Subscript))
         outs = set()
         for r in rs:
             if r['kind'] == 'return' and r['stmt'] is not None and r['stmt'].value is not None:
-                outs.add(('return', src(r['stmt'].value), tuple(c for c in r['calls'] if c.startswith('self.parse_pending'))))
+                rv = r['stmt'].value
+                hops = 0
+                while isinstance(rv, ast.Name) and rv.id in r['env'] and hops < 4:      # `hit = <entry>; return hit`
+                    rv = r['env'][rv.id]
+                    hops += 1
+                outs.add(('return', src(rv), tuple(c for c in r['calls'] if c.startswith('self.parse_pending'))))
             else:
                 outs.add((r['kind'], None, ()))
         rows.append(((e_, x_, p_, l_), outs))
